@@ -95,6 +95,10 @@ theorem convPVSens_cons (k v : V) (es : List (V × V)) (ds : DS) :
       if k.isKey "__pvalue" && !hasKey "__pvalue" es then convert v ds else convPVSens es ds := by
   simp [convPVSens]
 
+def ConvA (G : Nat → Option D) (res : Except DErr (List (String × V) × DS)) (as : List (String × D)) : Prop :=
+  ∃ rs ds', res = .ok (rs, ds') ∧ absAttrs rs = as ∧ ∀ (i : Nat) (r : V), ds'.memo.lookup i = some r →
+    ∃ a, G i = some a ∧ cnv a = .ok r.abs
+
 /-- shape of the conclusion -/
 def Conv (G : Nat → Option D) (res : Except DErr (V × DS)) (a : D) : Prop :=
   ∃ r ds', res = .ok (r, ds') ∧ r.abs = a ∧ MInv G ds'.memo
@@ -126,6 +130,8 @@ theorem convert_cnv (G : Nat → Option D) : ∀ (d : V) (ds : DS) (a : D), Cons
       simp only [V.abs, cnv] at h; cases h; exact ⟨.leaf i k e d, ds, by simp [convert], rfl, hM⟩
   | .sens i v, ds, a, _, hM, h => by
       simp only [V.abs, cnv] at h; cases h; exact ⟨.sens i v, ds, by simp [convert], by simp [V.abs], hM⟩
+  | .obj i tn d as, ds, a, _, hM, h => by
+      simp only [V.abs, cnv] at h; cases h; exact ⟨.obj i tn d as, ds, by simp [convert], by simp [V.abs], hM⟩
   | .arr id vs, ds, a, hC, hM, h => by
       have hg : G id = some (V.arr id vs).abs := by simp only [Cons] at hC; exact hC.1
       have hCl : ConsList G vs := by simp only [Cons] at hC; exact hC.2
@@ -194,7 +200,21 @@ theorem convert_cnv (G : Nat → Option D) : ∀ (d : V) (ds : DS) (a : D), Cons
                 · simp only [ht3, if_false] at h ⊢
                   rw [lookupLast_abs] at h
                   cases hpv : lookupLast "__pvalue" es with
-                  | none => rw [hpv] at h; simp at h
+                  | none =>
+                    rw [hpv] at h
+                    simp only [Option.map_none] at h
+                    by_cases ho : isObjType tn = true
+                    · simp only [ho, if_true] at h ⊢
+                      split at h
+                      · cases h
+                      · rename_i ras hras
+                        cases h
+                        obtain ⟨as', ds', h1, h2, h3⟩ :=
+                          convAttrs_cnv G es { ds with next := ds.next + 1 } ras hCp hM hras
+                        refine ⟨.obj ds.next tn "" as', { ds' with memo := (id, .obj ds.next tn "" as') :: ds'.memo },
+                          by simp [h1], by simp [V.abs, h2], ?_⟩
+                        exact MInv.add h3 hg (by rw [h0]; simp [V.abs, h2])
+                    · simp [ho] at h
                   | some pv =>
                     rw [hpv] at h
                     simp only [Option.map_some] at h
@@ -214,6 +234,7 @@ theorem convert_cnv (G : Nat → Option D) : ∀ (d : V) (ds : DS) (a : D), Cons
                     | sens _ _ => simp [V.abs] at h
                     | arr _ _ => simp [V.abs] at h
                     | hash _ _ => simp [V.abs] at h
+                    | obj _ _ _ _ => simp [V.abs] at h
           | undef => simp [V.abs] at h
           | dflt => simp [V.abs] at h
           | bool _ => simp [V.abs] at h
@@ -224,6 +245,7 @@ theorem convert_cnv (G : Nat → Option D) : ∀ (d : V) (ds : DS) (a : D), Cons
           | sens _ _ => simp [V.abs] at h
           | arr _ _ => simp [V.abs] at h
           | hash _ _ => simp [V.abs] at h
+          | obj _ _ _ _ => simp [V.abs] at h
 
 theorem convList_cnv (G : Nat → Option D) : ∀ (vs : List V) (ds : DS) (as : List D), ConsList G vs → MInv G ds.memo →
     cnvList (absList vs) = .ok as → ConvL G (convList vs ds) as
@@ -295,6 +317,7 @@ theorem convPVHash_cnv (G : Nat → Option D) : ∀ (es : List (V × V)) (ds : D
         | leaf _ _ _ _ => simp [V.abs] at h
         | sens _ _ => simp [V.abs] at h
         | hash _ _ => simp [V.abs] at h
+        | obj _ _ _ _ => simp [V.abs] at h
       · rename_i hcond
         simp only [hcond, Bool.false_eq_true, if_false] at h
         exact convPVHash_cnv G es ds as hC.2.2 hM h
@@ -316,6 +339,46 @@ theorem convPVSens_cnv (G : Nat → Option D) : ∀ (es : List (V × V)) (ds : D
       · rename_i hcond
         simp only [hcond, Bool.false_eq_true, if_false] at h
         exact convPVSens_cnv G es ds a hC.2.2 hM h
+
+theorem convAttrs_cnv (G : Nat → Option D) : ∀ (es : List (V × V)) (ds : DS) (as : List (String × D)), ConsPairs G es →
+    MInv G ds.memo → cnvAttrs (absPairs es) = .ok as → ConvA G (convAttrs es ds) as
+  | [], ds, as, _, hM, h => by
+      simp only [absPairs, cnvAttrs] at h; cases h
+      exact ⟨[], ds, by simp [convAttrs], rfl, hM⟩
+  | (k, v) :: es, ds, as, hC, hM, h => by
+      simp only [ConsPairs] at hC
+      cases k with
+      | str s =>
+        replace h : cnvAttrs ((.str s, v.abs) :: absPairs es) = .ok as := h
+        simp only [cnvAttrs] at h
+        simp only [convAttrs]
+        split
+        · rename_i hs
+          simp only [hs, if_true] at h
+          exact convAttrs_cnv G es ds as hC.2.2 hM h
+        · rename_i hs
+          simp only [hs, if_false] at h
+          split at h
+          · cases h
+          · rename_i rv hrv
+            split at h
+            · cases h
+            · rename_i rs hrs
+              cases h
+              obtain ⟨v', ds1, h1, h2, h3⟩ := convert_cnv G v ds rv hC.2.1 hM hrv
+              obtain ⟨as', ds2, h4, h5, h6⟩ := convAttrs_cnv G es ds1 rs hC.2.2 h3 hrs
+              exact ⟨(s, v') :: as', ds2, by simp [h1, h4], by simp [absAttrs, h2, h5], h6⟩
+      | undef => simp [absPairs, V.abs, cnvAttrs] at h
+      | dflt => simp [absPairs, V.abs, cnvAttrs] at h
+      | bool _ => simp [absPairs, V.abs, cnvAttrs] at h
+      | int _ => simp [absPairs, V.abs, cnvAttrs] at h
+      | flt _ => simp [absPairs, V.abs, cnvAttrs] at h
+      | bin _ _ => simp [absPairs, V.abs, cnvAttrs] at h
+      | leaf _ _ _ _ => simp [absPairs, V.abs, cnvAttrs] at h
+      | sens _ _ => simp [absPairs, V.abs, cnvAttrs] at h
+      | arr _ _ => simp [absPairs, V.abs, cnvAttrs] at h
+      | hash _ _ => simp [absPairs, V.abs, cnvAttrs] at h
+      | obj _ _ _ _ => simp [absPairs, V.abs, cnvAttrs] at h
 
 theorem convFlat_cnv (G : Nat → Option D) : ∀ (xs : List V) (ds : DS) (as : List (D × D)), ConsList G xs →
     MInv G ds.memo → cnvFlat (absList xs) = .ok as → ConvP G (convFlat xs ds) as
